@@ -37,7 +37,7 @@ def run(ctx):
                        fc.consts(MIX, [1, 2], [1], depth))
     g2 = fc.mc_and_generate(ctx, mcg, timeout=2400)
     ctx.notes["g2_histories"] = len(g2)
-    hists += fc.sample_pref(rng, g2, 2000 if ctx.thorough else 300, fc.link_then(("write", "create", "update", "delete", "rename")))
+    hists += fc.sample_pref(rng, g2, 1500 if ctx.thorough else 300, fc.link_then(("write", "create", "update", "delete", "rename")))
     # the implementation-shaped generator (Dev: every known-finding deviation, the chunk ids the unchanged code
     # schedules) must break the design invariants - the findings are violations of the statement, not noise
     dv = ctx.instance("DEV_FilerNS_C20_safe", "FilerNS", "SPECIFICATION Spec\nINVARIANT GcSafe\nCHECK_DEADLOCK FALSE",
@@ -51,10 +51,10 @@ def run(ctx):
         ctx.model_check(mc, workers=4, timeout=1500)
         g3 = ctx.instance("G3_FilerNS_C20", "FilerNS", "SPECIFICATION Spec\nINVARIANT Emit\nCHECK_DEADLOCK FALSE",
                           fc.consts(MIX + ["mkdir"], [1, 2, 3, 4], [1, 2], 10, links=3))
-        hists += ctx.generate(g3, simulate=400, depth=11)
+        hists += ctx.generate(g3, simulate=200, depth=11)
     hists = [fc.observers(rng, fc.PATHS, [fc.norm_op(op, rng) for op in h], 0.1) for h in hists]
     # G4: seeded random input scripts with hard links, overwrites keeping some chunks, renames
-    hists += fc.random_scripts(rng, 600 if ctx.thorough else 80, 12, WEIGHTS)
+    hists += fc.random_scripts(rng, 400 if ctx.thorough else 80, 12, WEIGHTS)
     hists = fc.finding_scripts("C20") + hists
     fc.drive_and_judge(ctx, hists, nontrivial, mutate, ["C20"])
     ctx.rule = ("executions = one TLC witness history per (namespace state incl. link records and scheduled chunks, last "
